@@ -39,7 +39,9 @@ let shorts = ["ab"; "xy"; "+a"]
 let clients = ["cl1"; "cl2"]
 
 let payload () : n list =
-  let l = pickw [ (6, rnd 6); (2, 0); (2, 20 + rnd 40); (1, 250 + rnd 10); (1, 7168) ] in
+  (* now and then a payload whose datagram would exceed 65535 bytes (sizes that wrap 16-bit arithmetic) *)
+  let l = if rnd 400 = 0 then pick [65529; 65536; 70000; 73000]
+    else pickw [ (6, rnd 6); (2, 0); (2, 20 + rnd 40); (1, 250 + rnd 10); (1, 7168) ] in
   List.init l (fun k -> nn ((k * 7 + l) land 255))
 
 let gen_predef () : string =
@@ -217,7 +219,7 @@ let gen_history ?(cfgstr : string option) (idx : int) (prof : profile) (oc : out
          | Some ((_, _), CxConnack) -> `Connack
          | None -> `Connack)
       else if pending_connect then
-        pickw [ (30, `Connack); (12, `Auth); (12, `WillTopic); (12, `WillMsg); (5, `Connect); (6, `Silence); (4, `PreIllegal);
+        pickw [ (30, `Connack); (12, `Auth); (12, `WillTopic); (12, `WillMsg); (5, `Connect); (6, `Silence); (4, `PreIllegal); (4, `RefusedThenSilence);
                 (if connected () then 2 else 0), `Sleep;
                 (3, `BrokerStuff); (5, `Adv); (2, `Disconnect0); (prof.p_malformed, `Malformed); (2, `Terminal) ]
       else if asleep then
@@ -259,7 +261,8 @@ let gen_history ?(cfgstr : string option) (idx : int) (prof : profile) (oc : out
     | `Disconnect0 -> emit_or_skip (ev_sn (Disconnect (nn 0))); terminal := true
     | `Sleep ->
       let k = int_of_n !s.gw_keepalive in
-      let d = pickw [ (3, max 1 (k - 1)); (2, k); (4, k + 1); (3, 2 * k + 1); (2, 3 * k + 2); (1, 1);
+      (* incl. durations whose low byte is zero (two-byte field) *)
+      let d = pickw [ (3, max 1 (k - 1)); (2, k); (4, k + 1); (3, 2 * k + 1); (2, 3 * k + 2); (1, 1); (1, pick [256; 512; 3840]);
                       ((if prof.p_vanish then 8 else 0), 5 * k + 20 + rnd 100) ] in
       emit_or_skip (ev_sn (Disconnect (nn d)))
     | `ClientAck ->
@@ -341,6 +344,11 @@ let gen_history ?(cfgstr : string option) (idx : int) (prof : profile) (oc : out
       (match deadlines !s with
        | [] -> adv_safe (1 + rnd 50)
        | l -> let t = pick l - int_of_n !s.gw_now in adv_safe (max 1 (t + pick [-1; 1; 1; 50])))
+    | `RefusedThenSilence ->
+      (* a CONNECT the gateway refuses by itself (keep-alive 0 / unknown protocol ID) in the middle of the
+         exchange, then the client falls silent: the half-open exchange must still end the session (C10) *)
+      emit_or_skip (ev_sn (if coin () then Connect (false, coin (), nn 1, nn 0, bs cid) else Connect (false, coin (), nn 2, nn 5, bs cid)));
+      adv_safe (pick [5150; 5300; 6000]); if !s.gw_ending <> None || !s.gw_ended then terminal := true
     | `Silence -> adv_safe (pick [4990; 5001; 5200]); if !s.gw_ending <> None || !s.gw_ended then terminal := true
     | `Malformed -> emit_or_skip (ev_raw (malformed ())); if !s.gw_ending <> None then terminal := true
     | `OtherKind -> emit_or_skip (ev_sn (other_kind ())); terminal := true
